@@ -9,7 +9,8 @@ import sys
 
 from harness.common import Failure, Spec, coq_list
 
-# case = {"variant": "gen"|"coro", "body": stmt, "outs": [["ok", z] | ["err", n]], "pre": [d], "sched": [d]}
+# case = {"variant": "gen"|"coro", "body": stmt, "outs": [["ok", z] | ["err", n]], "cancs": [canc], "pre": [d],
+#         "sched": [["fire", d] | ["cancel"]]}     canc = ["nothing"] | ["succeed", z] | ["fail", n]
 # stmt = ["await", d] | ["yield", z] | ["mark", n] | ["raise", n] | ["return", z] | ["seq", a, b]
 #      | ["try", body, handler] | ["finally", body, fin] | ["loop", n, body]
 
@@ -80,11 +81,26 @@ def compile_f(body, variant):
     return ns["f"]
 
 
+def _cancs(case):
+    return case.get("cancs") or [["nothing"]] * len(case["outs"])
+
+
 def impl(case) -> str:
     from twisted.internet import defer
 
     n = len(case["outs"])
-    D = [defer.Deferred() for _ in range(n)]
+    log = []
+
+    def mk_canceller(d, beh):
+        def canceller(dd):
+            log.append(f"c{d}")
+            if beh[0] == "succeed":
+                dd.callback(beh[1])
+            elif beh[0] == "fail":
+                dd.errback(UserErr(beh[1]))
+        return canceller
+
+    D = [defer.Deferred(canceller=mk_canceller(d, beh)) for d, beh in enumerate(_cancs(case))]
 
     def fire(d):
         if d < n and not D[d].called:
@@ -96,7 +112,6 @@ def impl(case) -> str:
 
     for d in case["pre"]:
         fire(d)
-    log = []
     f = compile_f(case["body"], case["variant"])
     if case["variant"] == "gen":
         res = defer.inlineCallbacks(f)(D, log)
@@ -104,8 +119,11 @@ def impl(case) -> str:
         res = defer.ensureDeferred(f(D, log))
     out = []
     res.addCallbacks(lambda v: out.append("R:" + canon(v)), lambda fl: out.append("R:" + canon_exc(fl.value)))
-    for d in case["sched"]:
-        fire(d)
+    for op in case["sched"]:
+        if op[0] == "fire":
+            fire(op[1])
+        else:
+            res.cancel()
     for dd in D:
         dd.addErrback(lambda fl: None)
     if len(out) > 1:
@@ -114,43 +132,85 @@ def impl(case) -> str:
 
 
 def sync_run(case):
-    """the same function called synchronously: every awaited Deferred stands for its outcome (a Deferred that was
-    already awaited holds None); stops where the function awaits a Deferred that never fires in this case"""
+    """The property, executed: the printed generator under a minimal driver of the harness's own (not Twisted's).
+    Every awaited Deferred stands for its outcome — the predetermined one, or what its canceller made of it when
+    the function was cancelled while waiting on it (a Deferred that was already awaited holds None); cancel acts on
+    exactly the Deferred the function is waiting on; returns (observed sequence, result or "S")."""
     f = compile_f(case["body"], "gen")
     n = len(case["outs"])
     toks = [Tok(d) for d in range(n)]
+    cancs = _cancs(case)
     log = []
     g = f(toks, log)
-    will_fire = set(case["pre"]) | set(case["sched"])
-    taken = set()
-    send, exc = None, None
-    while True:
-        try:
-            y = g.throw(exc) if exc is not None else g.send(send)
-        except StopIteration as e:
-            return log, "R:" + canon(e.value)
-        except Exception as e:          # noqa: BLE001 - the function's uncaught exception is its outcome
-            return log, "R:" + canon_exc(e)
+    fired = set(case["pre"])
+    cancelled, taken = set(), set()
+    st = {"on": None, "res": None}
+
+    def outcome(d):
+        if d in taken:
+            return ("ok", None)
+        taken.add(d)
+        if d in cancelled:
+            b = cancs[d]
+            return ("ok", b[1]) if b[0] == "succeed" else ("err", UserErr(b[1])) if b[0] == "fail" else ("err", "X")
+        o = case["outs"][d]
+        return ("ok", o[1]) if o[0] == "ok" else ("err", UserErr(o[1]))
+
+    def resume(o):
+        from twisted.internet import defer
+        st["on"] = None
         send, exc = None, None
-        if isinstance(y, Tok):
-            if y.d not in will_fire:
-                snap = list(log)
-                try:
-                    g.close()
-                except BaseException:     # a finally clause that yields again, raises, ... (cleanup only)
-                    pass
-                return snap, "S"
-            if y.d in taken:
-                send = None
+        if o is not None:
+            if o[0] == "ok":
+                send = o[1]
             else:
-                taken.add(y.d)
-                o = case["outs"][y.d]
-                if o[0] == "ok":
-                    send = o[1]
+                exc = defer.CancelledError() if o[1] == "X" else o[1]
+        while True:
+            try:
+                y = g.throw(exc) if exc is not None else g.send(send)
+            except StopIteration as e:
+                st["res"] = "R:" + canon(e.value)
+                return
+            except Exception as e:          # noqa: BLE001 - the function's uncaught exception is its outcome
+                st["res"] = "R:" + canon_exc(e)
+                return
+            send, exc = None, None
+            if isinstance(y, Tok):
+                if y.d not in fired:
+                    st["on"] = y.d
+                    return
+                o2 = outcome(y.d)
+                if o2[0] == "ok":
+                    send = o2[1]
                 else:
-                    exc = UserErr(o[1])
-        else:
-            send = y
+                    exc = defer.CancelledError() if o2[1] == "X" else o2[1]
+            else:
+                send = y
+
+    resume(None)
+    for op in case["sched"]:
+        if st["res"] is not None:
+            break
+        if op[0] == "fire":
+            d = op[1]
+            if d < n and d not in fired:
+                fired.add(d)
+                if st["on"] == d:
+                    resume(outcome(d))
+        elif st["on"] is not None:
+            d = st["on"]
+            log.append(f"c{d}")
+            fired.add(d)
+            cancelled.add(d)
+            resume(outcome(d))
+    snap = list(log)
+    if st["res"] is None:
+        try:
+            g.close()
+        except BaseException:     # a finally clause that yields again, raises, ... (cleanup only)
+            pass
+        return snap, "S"
+    return snap, st["res"]
 
 
 def oracle(case, obs):
@@ -160,6 +220,8 @@ def oracle(case, obs):
     v = case["variant"]
     if tail.startswith("TWICE"):
         return Failure(case, "the returned Deferred fired more than once: " + obs, f"{v}-result-twice")
+    if [t for t in seen if t[0] == "c"] != [t for t in want_log if t[0] == "c"]:
+        return Failure(case, f"cancel calls on awaited Deferreds: got {seen}, expected {want_log}", f"{v}-cancel-calls")
     if seen != want_log:
         return Failure(case, f"the function observed {seen}, synchronously it observes {want_log}", f"{v}-observed-sequence")
     if tail != want_res:
@@ -209,9 +271,14 @@ def _awaits(s):
     return out
 
 
+def _rand_canc(rng):
+    r = rng.random()
+    return ["nothing"] if r < 0.6 else ["succeed", rng.randrange(50, 60)] if r < 0.8 else ["fail", rng.randrange(7, 9)]
+
+
 def gen(rng, tier):
     cases = []
-    # every arrival order x every pre-fired prefix for small programs
+    # every arrival order x every pre-fired prefix for small programs, with a cancellation injected at every point
     small = [
         ["seq", ["await", 0], ["seq", ["await", 1], ["return", 1]]],
         ["try", ["seq", ["await", 0], ["await", 1]], ["await", 2]],
@@ -226,12 +293,16 @@ def gen(rng, tier):
             for perm in itertools.permutations(ds):
                 for npre in range(len(ds) + 1):
                     for nlast in (len(ds), len(ds) - 1):
-                        case = {"variant": "gen", "body": body,
-                                "outs": [["ok", 10 + d] if outs[d] else ["err", d] for d in range(len(ds))],
-                                "pre": list(perm[:npre]), "sched": list(perm[npre:nlast])}
-                        if tier == "quick" and rng.random() > 0.5:
-                            continue
-                        cases.append(case)
+                        base = [["fire", d] for d in perm[npre:nlast]]
+                        scheds = [base] + [base[:k] + [["cancel"]] + base[k:] for k in range(len(base) + 1)]
+                        scheds.append([["cancel"]] + base[:1] + [["cancel"]] + base[1:])
+                        for sched in scheds:
+                            if rng.random() > (0.15 if tier == "quick" else 0.6):
+                                continue
+                            cases.append({"variant": "gen", "body": body,
+                                          "outs": [["ok", 10 + d] if outs[d] else ["err", d] for d in range(len(ds))],
+                                          "cancs": [_rand_canc(rng) for _ in ds],
+                                          "pre": list(perm[:npre]), "sched": sched})
     for _ in range(350 if tier == "quick" else 4000):
         variant = "gen" if rng.random() < 0.6 else "coro"
         nd = rng.randrange(1, 11)
@@ -244,18 +315,29 @@ def gen(rng, tier):
         rng.shuffle(order)
         npre = rng.randrange(nd + 1)
         keep = nd if rng.random() < 0.8 else rng.randrange(npre, nd + 1)
-        cases.append({"variant": variant, "body": body, "outs": outs, "pre": order[:npre], "sched": order[npre:keep]})
+        sched = [["fire", d] for d in order[npre:keep]]
+        if rng.random() < 0.6:
+            for _ in range(rng.choice([1, 1, 2, 3])):
+                sched.insert(rng.randrange(len(sched) + 1), ["cancel"])
+        cases.append({"variant": variant, "body": body, "outs": outs, "cancs": [_rand_canc(rng) for _ in range(nd)],
+                      "pre": order[:npre], "sched": sched})
     return cases
 
 
 def corpus():
     return [
         {"variant": "gen", "body": ["seq", ["try", ["await", 0], ["mark", 7]],
-                                     ["finally", ["loop", 2, ["await", 1]], ["seq", ["await", 2], ["return", 5]]]],
-         "outs": [["err", 3], ["ok", 1], ["ok", 2]], "pre": [2], "sched": [1, 0]},
+                                     ["finally", ["try", ["loop", 2, ["await", 1]], ["mark", 8]], ["seq", ["await", 2], ["return", 5]]]],
+         "outs": [["err", 3], ["ok", 1], ["ok", 2]], "cancs": [["nothing"]] * 3, "pre": [2],
+         "sched": [["fire", 0], ["cancel"], ["fire", 1]]},
         {"variant": "coro", "body": ["finally", ["seq", ["await", 0], ["raise", 21]], ["await", 1]],
-         "outs": [["ok", 10], ["err", 1]], "pre": [1], "sched": [0]},
-        {"variant": "gen", "body": ["seq", ["await", 0], ["await", 0]], "outs": [["ok", 10]], "pre": [], "sched": [0]},
+         "outs": [["ok", 10], ["err", 1]], "cancs": [["succeed", 55], ["fail", 8]], "pre": [],
+         "sched": [["cancel"], ["cancel"], ["fire", 0], ["fire", 1]]},
+        {"variant": "gen", "body": ["seq", ["await", 0], ["await", 0]], "outs": [["ok", 10]], "cancs": [["nothing"]],
+         "pre": [], "sched": [["fire", 0]]},
+        {"variant": "gen", "body": ["try", ["await", 0], ["try", ["await", 1], ["await", 2]]],
+         "outs": [["ok", 10], ["ok", 11], ["ok", 12]], "cancs": [["nothing"], ["fail", 7], ["succeed", 5]], "pre": [],
+         "sched": [["cancel"], ["cancel"], ["cancel"], ["cancel"]]},
     ]
 
 
@@ -278,9 +360,12 @@ def _stmt_coq(s):
 
 
 def to_coq(case):
-    outs = coq_list([f"(Val (VInt ({o[1]})%Z))" if o[0] == "ok" else f"(Exc (EUser {o[1]}))" for o in case["outs"]], "outcome")
-    return (f"({_stmt_coq(case['body'])}, {outs}, {coq_list(map(str, case['pre']), 'nat')}, "
-            f"{coq_list(map(str, case['sched']), 'nat')})")
+    def canc(c):
+        return "CNothing" if c[0] == "nothing" else f"(CSucceed ({c[1]})%Z)" if c[0] == "succeed" else f"(CFail {c[1]})"
+    ds = coq_list([f"({'(Val (VInt (%d)%%Z))' % o[1] if o[0] == 'ok' else '(Exc (EUser %d))' % o[1]}, {canc(c)})"
+                   for o, c in zip(case["outs"], _cancs(case))], "(outcome * cbeh)")
+    sched = coq_list(["SCancel" if o[0] == "cancel" else f"SFire {o[1]}" for o in case["sched"]], "sop")
+    return f"({_stmt_coq(case['body'])}, {ds}, {coq_list(map(str, case['pre']), 'nat')}, {sched})"
 
 
 def model_equal(case, a, b):
@@ -295,8 +380,11 @@ def shrink(case):
             yield {**case, "body": x}
     if case["sched"]:
         yield {**case, "sched": case["sched"][:-1]}
+    for i, o in enumerate(case["sched"]):
+        if o[0] == "cancel":
+            yield {**case, "sched": case["sched"][:i] + case["sched"][i + 1:]}
     if case["pre"]:
-        yield {**case, "pre": case["pre"][:-1], "sched": [case["pre"][-1]] + case["sched"]}
+        yield {**case, "pre": case["pre"][:-1], "sched": [["fire", case["pre"][-1]]] + case["sched"]}
 
 
 SPEC = Spec(
@@ -310,15 +398,19 @@ SPEC = Spec(
     histogram=lambda c, o: c["variant"] + (" finished" if "R:" in o else " suspended"),
     describe=lambda c: {**c, "source": source(c["body"], c["variant"])},
     rule="six small programs x every success/failure assignment x every arrival order x every pre-fired prefix (with and "
-         "without the last Deferred firing) as generators (quick: 50% sample); 350 (quick) / 4000 (thorough) random "
+         "without the last Deferred firing) x {no cancellation, cancel() of the returned Deferred injected at every "
+         "position, two cancellations} with random canceller behaviour per Deferred, as generators (quick: 15% sample, "
+         "thorough 60%); 350 (quick) / 4000 (thorough) random "
          "structured programs of depth <= 4 (await, plain yield, mark, raise, return, seq, try/except, try/finally, "
          "loops) over up to 10 Deferreds, 60% as @inlineCallbacks generators, 40% as coroutines under ensureDeferred "
-         "(each Deferred awaited once), random pre-fired subset and arrival order; non-trivial = at least two awaits and "
+         "(each Deferred awaited once), random pre-fired subset and arrival order, 60% with 1-3 cancellations at random "
+         "positions; non-trivial = at least two awaits and "
          "the function ran to completion; distinct by (case, observation)",
     trusted=["hand-written model coq/C05/Model.v (driver loop transcription; tied by this correspondence run only)",
              "ORACLE: CPython's generator/coroutine objects implement the send/throw/StopIteration protocol as given by "
              "Model.denote (PEP 342/492); exercised by the correspondence run, not proved",
              "the harness prints the case's program as Python source and exec()s it"],
     assumptions=["Deferred callbacks run synchronously in order (C01); a Deferred awaited once holds None afterwards",
-                 "cancellation of the returned Deferred is not modelled (the property's second half)"],
+                 "the chain returned Deferred -> fresh status.deferred created by each cancellation is abstracted to "
+                 "'the result' in the model; the correspondence run observes the real chain through the user's callback"],
 )
